@@ -91,7 +91,13 @@ def worker(args):
         def gen():
             for i in range(args.shard, cfg["cases"], args.nshards):
                 rng = random.Random(case_seed(seed, args.pid, i))
-                yield i, prop.gen_case(rng, cfg, i)
+                try:
+                    c = prop.gen_case(rng, cfg, i)
+                except Exception as e:   # a generator bug must not take the shard down: counted, and too many make the run inconclusive
+                    agg["gen_errors"] = agg.get("gen_errors", 0) + 1
+                    agg.setdefault("gen_error_samples", []).append(f"case {i}: {type(e).__name__}: {e}"[:200])
+                    c = None
+                yield i, c
         it = gen()
     tstart = time.time()
     budget = float(cfg.get("shard_budget_s", 0))
@@ -290,6 +296,8 @@ def main():
             continue
         a = json.load(open(of))
         agg["evaluations"] += a["evaluations"]
+        agg["gen_errors"] = agg.get("gen_errors", 0) + a.get("gen_errors", 0)
+        agg.setdefault("gen_error_samples", []).extend(a.get("gen_error_samples", [])[:2])
         agg["nviol"] += a["nviol"]
         agg["timeouts"] += a["timeouts"]
         agg["slowest"] = max(agg["slowest"], a.get("slowest", 0))
@@ -335,6 +343,8 @@ def main():
             got = agg["counters"].get(k, 0)
             if got < fl:
                 inconclusive.append(f"counter {k}={got} below floor {fl}")
+    if agg.get("gen_errors", 0) > max(3, agg["evaluations"] // 200):
+        inconclusive.append(f"{agg['gen_errors']} generator errors, e.g. {agg.get('gen_error_samples', [''])[0]}")
     ntime = agg["timeouts"]
     if ntime > max(2, agg["evaluations"] // 100):
         inconclusive.append(f"{ntime} case watchdog timeouts")
@@ -360,6 +370,7 @@ def main():
         "hook_reach": agg["reach"],
         "skips": agg["skips"],
         "case_timeouts": ntime,
+        "generator_errors": agg.get("gen_errors", 0),
         "slowest_case_s": round(agg["slowest"], 2),
         "known_findings_seen": {m: n for m, n in agg["mech_counts"].items() if m in known},
         "unlisted_violation_mechanisms": {m: n for m, n in agg["mech_counts"].items() if m not in known},
